@@ -137,6 +137,7 @@ func runC05(c *Ctx) {
 				PCall("ccv.StakingKeeper.GetValidator", 0, nil, nil, PParam("valAddr"))))
 			c.Check(valCons(arg(look, 2)), fk(f, "looks-up-own-address"), look, "looks up the consensus address of the validator being created; found "+describe(arg(look, 2)))
 			c.Check(inLoop(look) && elementOfCall(arg(look, 1), "pk.Keeper.GetAllActiveConsumerIds"), fk(f, "all-active-consumers"), look, "the lookup runs for every id of GetAllActiveConsumerIds; id has origin "+describe(arg(look, 1)))
+			c.VisitsAll(look, fk(f, "no-consumer-skipped"), "lookup over the active consumers", leadsOnlyToConstBoolReturn(true))
 			exist := ABool("exist", PIs(extractOf(look, 1)))
 			for _, r := range Returns(f) {
 				if b, ok := constBool(r.Results[0]); ok && !b {
@@ -162,6 +163,7 @@ func runC05(c *Ctx) {
 		c.Check(n > 0, fk(f, "shape"), f, "collects ids by append")
 		for _, cl := range Calls(f, false, "pk.Keeper.IsConsumerActive") {
 			c.Check(elementOfCall(arg(cl, 1), "pk.Keeper.GetAllConsumerIds"), fk(f, "source"), cl, "iterates GetAllConsumerIds")
+			c.VisitsAll(cl, fk(f, "no-id-skipped"), "filter over GetAllConsumerIds")
 		}
 	}
 
